@@ -21,9 +21,12 @@ import (
 	databasev1 "github.com/apache/skywalking-banyandb/api/proto/banyandb/database/v1"
 	measurev1 "github.com/apache/skywalking-banyandb/api/proto/banyandb/measure/v1"
 	modelv1 "github.com/apache/skywalking-banyandb/api/proto/banyandb/model/v1"
+	"github.com/apache/skywalking-banyandb/banyand/dquery"
 	"github.com/apache/skywalking-banyandb/banyand/internal/verifdrv/drv"
+	bmeasure "github.com/apache/skywalking-banyandb/banyand/measure"
 	"github.com/apache/skywalking-banyandb/pkg/bus"
 	"github.com/apache/skywalking-banyandb/pkg/index"
+	pbv1 "github.com/apache/skywalking-banyandb/pkg/pb/v1"
 	"github.com/apache/skywalking-banyandb/pkg/query/aggregation"
 	"github.com/apache/skywalking-banyandb/pkg/query/executor"
 	"github.com/apache/skywalking-banyandb/pkg/query/logical"
@@ -198,6 +201,8 @@ type scenario struct {
 	af     modelv1.AggregationFunction
 	topN   int
 	topAsc bool
+	// limit: QueryRequest.Limit of row-path scenarios (top field suffix "@L"); 0 = large
+	limit uint32
 	// t3int: every row's t3 is a decimal integer => t3 is declared TAG_TYPE_INT (int64 tag column)
 	t3int bool
 }
@@ -221,6 +226,11 @@ func entag(s string) string {
 // <kind> <fn> <mask> <top> <nodes> <rows>
 func parseScenario(f []string) *scenario {
 	sc := &scenario{fnName: f[1], af: parseFn(f[1]), mask: f[2]}
+	if i := strings.Index(f[3], "@"); i >= 0 {
+		l, _ := strconv.Atoi(f[3][i+1:])
+		sc.limit = uint32(l)
+		f[3] = f[3][:i]
+	}
 	if f[3] != "0" {
 		p := strings.Split(f[3], ":")
 		sc.topN, _ = strconv.Atoi(p[0])
@@ -413,6 +423,9 @@ func (sc *scenario) request() *measurev1.QueryRequest {
 		FieldProjection: &measurev1.QueryRequest_FieldProjection{Names: []string{"v"}},
 		Agg:             &measurev1.QueryRequest_Aggregation{Function: sc.af, FieldName: "v"},
 		Limit:           100000,
+	}
+	if sc.limit > 0 {
+		req.Limit = sc.limit
 	}
 	if gt := sc.groupTags(); len(gt) > 0 {
 		req.GroupBy = &measurev1.QueryRequest_GroupBy{
@@ -821,6 +834,109 @@ func doVec(f []string) string {
 	return "L=" + sc.vecShowFinal(local) + " D=" + sc.vecShowFinal(red) + " R=" + sc.vecShowPartials(nodes)
 }
 
+// ---------------------------------------------------------------------------------------
+// tnp: banyand/measure topNPostProcessor, directly (Put ... Val) or through dquery.processTopNResponse
+
+// tnp <n> <a|d> <agg|none> <p|r> <resp>/<resp>/...   resp = ts.key.val.ver,... | -
+func doTnp(f []string) string {
+	n, _ := strconv.Atoi(f[1])
+	srt := modelv1.Sort_SORT_DESC
+	if f[2] == "a" {
+		srt = modelv1.Sort_SORT_ASC
+	}
+	agg := modelv1.AggregationFunction_AGGREGATION_FUNCTION_UNSPECIFIED
+	if f[3] != "none" {
+		agg = parseFn(f[3])
+	}
+	type item struct {
+		key      string
+		ts       uint64
+		val, ver int64
+	}
+	var resps [][]item
+	total := 0
+	for _, r := range strings.Split(f[5], "/") {
+		var items []item
+		if r != "-" {
+			for _, it := range strings.Split(r, ",") {
+				p := strings.Split(it, ".")
+				ts, e1 := strconv.ParseUint(p[0], 10, 64)
+				v, e2 := strconv.ParseInt(p[2], 10, 64)
+				ver, e3 := strconv.ParseInt(p[3], 10, 64)
+				if e1 != nil || e2 != nil || e3 != nil {
+					panic("bad tnp item " + it)
+				}
+				items = append(items, item{key: p[1], ts: ts, val: v, ver: ver})
+			}
+		}
+		total += len(items)
+		resps = append(resps, items)
+	}
+	entity := func(k string) []*modelv1.Tag {
+		return []*modelv1.Tag{{Key: "svc", Value: &modelv1.TagValue{Value: &modelv1.TagValue_Str{Str: &modelv1.Str{Value: k}}}}}
+	}
+	var lists []*measurev1.TopNList
+	var err error
+	if f[4] == "r" {
+		var ff []bus.Future
+		for _, items := range resps {
+			l := &measurev1.TopNList{Timestamp: timestamppb.New(time.UnixMilli(0))}
+			for _, it := range items {
+				l.Items = append(l.Items, &measurev1.TopNList_Item{
+					Entity:    entity(it.key),
+					Value:     &modelv1.FieldValue{Value: &modelv1.FieldValue_Int{Int: &modelv1.Int{Value: it.val}}},
+					Version:   it.ver,
+					Timestamp: timestamppb.New(time.UnixMilli(int64(it.ts))),
+				})
+			}
+			resp := &measurev1.TopNResponse{Lists: []*measurev1.TopNList{l}}
+			b, mErr := proto.Marshal(resp)
+			if mErr != nil {
+				return "ERR"
+			}
+			back := &measurev1.TopNResponse{}
+			if uErr := proto.Unmarshal(b, back); uErr != nil {
+				return "ERR"
+			}
+			ff = append(ff, &fakeFuture{msg: bus.NewMessage(1, back)})
+		}
+		lists, _, err = dquery.VerifC10ProcessTopNInt(ff, int32(n), agg, srt)
+	} else {
+		pp := bmeasure.CreateTopNPostProcessorInt(int32(n), agg, srt)
+		for _, items := range resps {
+			for _, it := range items {
+				pp.Put(pbv1.EntityValues{entity(it.key)[0].Value}, it.val, it.ts, it.ver)
+			}
+		}
+		lists, err = pp.Val([]string{"svc"})
+	}
+	if err != nil {
+		return "ERR " + errClass(err)
+	}
+	if total == 0 {
+		return "E"
+	}
+	show := func(l *measurev1.TopNList) string {
+		var out []string
+		for _, it := range l.Items {
+			out = append(out, it.Entity[0].GetValue().GetStr().GetValue()+"="+strconv.FormatInt(it.Value.GetInt().GetValue(), 10))
+		}
+		return strings.Join(out, ",")
+	}
+	if f[3] == "none" {
+		var out []string
+		for _, l := range lists {
+			ts := l.Timestamp.AsTime().UnixNano() // valWithoutAggregation: time.Unix(0, ms)
+			out = append(out, strconv.FormatInt(ts, 10)+":"+show(l))
+		}
+		return "T=" + strings.Join(out, ";")
+	}
+	if len(lists) != 1 {
+		return fmt.Sprintf("ERR %d lists", len(lists))
+	}
+	return "A=" + dash(show(lists[0]))
+}
+
 func handle(f []string) string {
 	if len(f) == 0 {
 		return "bad-op"
@@ -832,6 +948,8 @@ func handle(f []string) string {
 		return doFloat(f)
 	case "top":
 		return doTop(f)
+	case "tnp":
+		return doTnp(f)
 	case "row":
 		return doRow(f)
 	case "vec":
